@@ -44,8 +44,9 @@ Run runLib(const Gamma& G, const std::string& text, rl::Syntax syn, bool lazy) {
 
 bool isLimitCode(uint32_t e) { return e == 0x8A01 || e == 0x8A02 || e == 0x8A04 || e == 0x8A06; }
 
-Verdict evalProp(Ctx& c) {
+Verdict evalWith(Ctx& c, bool reuseNames) {
   TypedGen g(c);
+  g.optReuseNames = reuseNames;
   g.makeContext();
   const int rootKind = c.ipick(0, 9);
   const Ty target = rootKind < 4 ? Ty::Logic() : rootKind < 8 ? Ty::Set(g.randType(2)) : g.randType(2);
@@ -130,6 +131,9 @@ Verdict evalProp(Ctx& c) {
 }
 
 // ---- the same question through an interpreted model: RSModel::Calculations().Calculate + Values().SDataFor / StatementFor ----
+Verdict evalProp(Ctx& c) { return evalWith(c, false); }
+Verdict evalReuseProp(Ctx& c) { return evalWith(c, true); }
+
 Verdict modelProp(Ctx& c) {
   using ccl::semantic::CstType;
   TypedGen g(c);
@@ -236,6 +240,7 @@ int main(int argc, char** argv) {
   std::vector<pbt::Prop> props;
   props.push_back({"witnesses", witnessProp, 0, 0, true, false, "literal expressions that exposed repaired defects, with their set-theoretic values"});
   props.push_back({"evaluate", evalProp, 2500, 40000, false, false, "type-directed expressions x contexts x data; 2-4 renderings each"});
+  props.push_back({"evaluate_name_reuse", evalReuseProp, 1200, 20000, false, false, "the same, with binders re-declaring names whose earlier scope has ended (sibling binders, domains of enumerated / tuple declarations)"});
   props.push_back({"model_calculate", modelProp, 1200, 20000, false, false, "the same content as an RSModel: Calculate + SDataFor / StatementFor vs the reference value"});
   return pbt::main(argc, argv, "C01", props);
 }
